@@ -30,17 +30,17 @@ import (
 func payloadSamples() map[string]proto.Message {
 	leaf := errors.EncodeError(context.Background(), goerrors.New("x"))
 	return map[string]proto.Message{
-		"String":       &errorspb.StringPayload{},
-		"Strings":      &errorspb.StringsPayload{},
-		"Tags":         &errorspb.TagsPayload{},
-		"Mark":         &errorspb.MarkPayload{},
-		"Errno":        &errorspb.ErrnoPayload{},
+		"String":  &errorspb.StringPayload{},
+		"Strings": &errorspb.StringsPayload{},
+		"Tags":    &errorspb.TagsPayload{},
+		"Mark":    &errorspb.MarkPayload{},
+		"Errno":   &errorspb.ErrnoPayload{},
 		// (an empty EncodedError is not listed: it has neither leaf nor wrapper set,
 		// which C05 excludes as structurally incomplete)
-		"EncodedLeaf":  &leaf,
-		"HTTPCode":     &exthttp.EncodedHTTPCode{},
-		"GrpcCode":     &extgrpc.EncodedGrpcCode{},
-		"Status":       status.New(codes.NotFound, "x").Proto(),
+		"EncodedLeaf": &leaf,
+		"HTTPCode":    &exthttp.EncodedHTTPCode{},
+		"GrpcCode":    &extgrpc.EncodedGrpcCode{},
+		"Status":      status.New(codes.NotFound, "x").Proto(),
 	}
 }
 
